@@ -223,13 +223,35 @@ func checkC04(c *Check) {
 			}
 			lks = append(lks, lk{q, objOf(info, ix.Index), objOf(info, as.Lhs[1]), as})
 		}
+		// the normalised value may be copied into the variable that is then used (`n, err := ForLookup(a); key = n`)
+		cleanSet := map[types.Object]bool{}
+		if clean != nil {
+			cleanSet[clean] = true
+			for changed := true; changed; {
+				changed = false
+				ast.Inspect(r.FI.Decl.Body, func(n ast.Node) bool {
+					if as, ok := n.(*ast.AssignStmt); ok && len(as.Lhs) == len(as.Rhs) {
+						for i, l := range as.Lhs {
+							if y := objOf(info, as.Rhs[i]); y != nil && cleanSet[y] {
+								if x, isVar := objOf(info, l).(*types.Var); isVar && !x.IsField() && !cleanSet[x] {
+									cleanSet[x] = true
+									changed = true
+								}
+							}
+						}
+					}
+					return true
+				})
+			}
+		}
+		isClean := func(o types.Object) bool { return o != nil && cleanSet[o] }
 		msgK := ""
 		if clean == nil {
 			msgK = "the envelope address is not normalised with address.ForLookup before rule matching"
 		}
 		var full, dom *lk
 		for i := range lks {
-			if lks[i].key == clean && clean != nil {
+			if isClean(lks[i].key) {
 				full = &lks[i]
 			} else {
 				dom = &lks[i]
@@ -242,7 +264,7 @@ func checkC04(c *Check) {
 			okDom := false
 			ast.Inspect(r.FI.Decl.Body, func(n ast.Node) bool {
 				if as, ok := n.(*ast.AssignStmt); ok && len(as.Rhs) == 1 && len(as.Lhs) == 3 {
-					if call, ok := ast.Unparen(as.Rhs[0]).(*ast.CallExpr); ok && isCall(info, call, "~/framework/address.Split") && objOf(info, call.Args[0]) == clean && objOf(info, as.Lhs[1]) == dom.key {
+					if call, ok := ast.Unparen(as.Rhs[0]).(*ast.CallExpr); ok && isCall(info, call, "~/framework/address.Split") && isClean(objOf(info, call.Args[0])) && objOf(info, as.Lhs[1]) == dom.key {
 						okDom = true
 					}
 				}
@@ -257,7 +279,7 @@ func checkC04(c *Check) {
 		if tblOK {
 			tblOK = false
 			ast.Inspect(loops[0].Body, func(n ast.Node) bool {
-				if call, ok := n.(*ast.CallExpr); ok && methodName(call) == "Lookup" && len(call.Args) == 2 && objOf(info, call.Args[1]) == clean && clean != nil {
+				if call, ok := n.(*ast.CallExpr); ok && methodName(call) == "Lookup" && len(call.Args) == 2 && isClean(objOf(info, call.Args[1])) {
 					tblOK = true
 				}
 				return true
